@@ -28,12 +28,10 @@ def gen_card(rng, i):
     fn = rng.choice(FNS)
     lines = ["BEGIN:VCARD", "VERSION:3.0", "FN:" + fn, "N:" + fn + ";;;;"]
     struct = [("fn", fn, {})]
-    for _ in range(rng.randint(0, 2)):
-        e = rng.choice(EMAILS)
+    for e in rng.sample(EMAILS, rng.randint(0, 2)):
         lines.append("EMAIL:" + e)
         struct.append(("email", e, {}))
-    for _ in range(rng.randint(0, 2)):
-        t, params = rng.choice(TELS)
+    for (t, params) in rng.sample(TELS, rng.randint(0, 2)):
         ps = "".join(";%s=%s" % (k, ",".join(v)) for k, v in params.items())
         lines.append("TEL%s:%s" % (ps, t))
         struct.append(("tel", t, params))
@@ -67,6 +65,34 @@ TEXTS = ["alice", "Alice", "ALICE", "bob", "example", "EXAMPLE.COM", "Zoë", "zo
 def gen_tm(rng, texts=TEXTS):
     return {"collation": rng.choice(COLLS), "negate": rng.random() < 0.25, "mtype": rng.choice(MTYPES),
             "text": rng.choice(texts)}
+
+
+def gen_cross_instance_filter(rng, members):
+    """A prop-filter whose children are derived from *different* instances of a repeated property:
+    separates 'one instance satisfies all children' (allof) from 'each child is satisfied by some
+    instance'."""
+    cands = []
+    for _name, struct, _data in members:
+        for prop in ("email", "tel"):
+            inst = [(v, params) for (n, v, params) in struct if n == prop]
+            if len(inst) >= 2 and inst[0][0] != inst[1][0]:
+                cands.append((prop, inst))
+    if not cands:
+        return None
+    prop, inst = rng.choice(cands)
+    (v1, p1), (v2, p2) = inst[0], inst[1]
+    children = [{"tm": {"collation": "i;octet", "negate": False, "mtype": rng.choice(["contains", "equals", "starts-with"]),
+                        "text": v1}}]
+    if p2.get("TYPE") and rng.random() < 0.5:
+        children.append({"param": "TYPE", "nd": False,
+                         "tms": [{"collation": "i;ascii-casemap", "negate": False, "mtype": "equals",
+                                  "text": p2["TYPE"][0]}]})
+    else:
+        children.append({"tm": {"collation": "i;octet", "negate": rng.random() < 0.3,
+                                "mtype": rng.choice(["contains", "equals", "ends-with"]), "text": v2}})
+    return {"test": rng.choice([None, "allof"]),
+            "props": [{"name": prop.upper(), "test": rng.choice(["allof", "allof", "anyof", None]), "nd": False,
+                       "children": children}], "limit": None}
 
 
 def gen_filter(rng):
@@ -202,6 +228,10 @@ def run_queries(chk, n_books, n_queries):
             members.sort(key=lambda m: m[0].encode())
             lines = ["cnew"] + [card_line(n, s) for n, s, _ in members]
             qs = [gen_filter(chk.rng) for _ in range(n_queries)]
+            for _ in range(max(4, n_queries // 4)):
+                cf = gen_cross_instance_filter(chk.rng, members)
+                if cf:
+                    qs.append(cf)
             lines += [filter_line(f) for f in qs]
             out = run_driver("card", lines)[len(members) + 1:]
             for f, model in zip(qs, out):
